@@ -72,6 +72,10 @@ def generate(rng, tier):
         d = udocs[n % len(udocs)]
         for e in ((n % 8, (n * 3 + 1) % 8) if quick else range(8)):
             cases.append({"lines": [f"parse-seq upool-{n}-{e} {G.hx(d)} {G.hx(udocs[(n // 4) % len(udocs)])}"], "cls": "user-buffer-pool", "nontrivial": True})
+    # numbers of 700..1200 digits through every shape of the big-decimal fallback (its 800-digit scratch buffer lives on the stack)
+    for n in G.long_numbers(rng):
+        for shape in ((b"%s", b"[%s]") if quick else (b"%s", b"[%s]", b'{"k":%s}', b"[1,%s ,2]")):
+            cases.append({"lines": [f"parse-seq {rng.choice(['pool', 'simple', 'track'])} {G.hx(shape % n)} {G.hx(b'[1]')}"], "cls": "long-number", "nontrivial": True})
     for t, cls in texts:
         alloc = rng.choice(["pool", "simple", "track", "track", "guard", "gpool"] if len(t) < 400 else ["pool", "simple", "track"])
         cases.append({"lines": [f"parse {alloc} {G.hx(t)}"], "cls": cls + "/" + alloc, "nontrivial": len(t) > 2})
